@@ -272,6 +272,8 @@ func c18Stack(stack string) []failsafe.Policy[*http.Response] {
 			pols = append(pols, timeout.With[*http.Response](20*time.Second))
 		case "hedge":
 			pols = append(pols, hedgepolicy.WithDelay[*http.Response](20*time.Second))
+		case "hedge!": // a hedge that really fires
+			pols = append(pols, hedgepolicy.BuilderWithDelay[*http.Response](4*time.Millisecond).WithMaxHedges(1).Build())
 		case "breaker":
 			pols = append(pols, circuitbreaker.Builder[*http.Response]().WithFailureThreshold(1000).Build())
 		case "fallback":
